@@ -40,6 +40,16 @@ func (s *CDX) Serialize(bom *sbom.Document, _ *native.SerializeOptions, _ interf
 	// Load the context with the CDX value. We initialize a context here
 	// but we should get it as part of the method to capture cancelations
 	// from the CLI or REST API.
+	if bom == nil {
+		return nil, errors.New("document is nil, unable to serialize to CycloneDX")
+	}
+	if bom.Metadata == nil {
+		return nil, errors.New("document metadata is nil, unable to serialize to CycloneDX")
+	}
+	if bom.NodeList == nil {
+		return nil, errors.New("document node list is nil, unable to serialize to CycloneDX")
+	}
+
 	state := newSerializerCDXState()
 	ctx := context.WithValue(context.Background(), stateKey, state)
 
@@ -94,9 +104,13 @@ func (s *CDX) Serialize(bom *sbom.Document, _ *native.SerializeOptions, _ interf
 	for _, dt := range bom.Metadata.DocumentTypes {
 		var lfc cdx.Lifecycle
 
+		if dt == nil {
+			continue
+		}
+
 		if dt.Type == nil {
-			lfc.Name = *dt.Name
-			lfc.Description = *dt.Description
+			lfc.Name = dt.GetName()
+			lfc.Description = dt.GetDescription()
 		} else {
 			lfc.Phase, err = sbomTypeToPhase(dt)
 			if err != nil {
@@ -167,10 +181,10 @@ func sbomTypeToPhase(dt *sbom.DocumentType) (cdx.LifecyclePhase, error) {
 	case sbom.DocumentType_DISCOVERY:
 		return cdx.LifecyclePhaseDiscovery, nil
 	case sbom.DocumentType_OTHER:
-		return cdx.LifecyclePhase(strings.ToLower(*dt.Name)), nil
+		return cdx.LifecyclePhase(strings.ToLower(dt.GetName())), nil
 	}
 	// TODO(option): Dont err but assign to type OTHER
-	return "", fmt.Errorf("unknown document type %s", *dt.Name)
+	return "", fmt.Errorf("unknown document type %s", dt.GetName())
 }
 
 // clearAutoRefs
